@@ -249,3 +249,40 @@ def c11_schema_hidden(mode: int, q: int) -> bool:
     d = r.get("data")
     leaked = d is not None and any(v is not None for v in d.values())
     return verdict(not leaked)
+
+
+# ---- valid SDL must build: interface implementations that the spec allows ------------------------------------------
+from vf.ref.validation import wrap, parse, valid_impl_field_type  # noqa: E402
+from crosshair.tracers import NoTracing  # noqa: E402
+import asyncio  # noqa: E402
+from tartiflette import create_engine  # noqa: E402
+VBASES = [("Int", "Int"), ("A", "N"), ("A", "U")]
+VPRE = "type Query { a: Int }\ninterface N { id: ID }\ntype A implements N { id: ID }\ntype B { id: ID }\nunion U = A\n"
+VCOUNT = [0]
+
+
+@obligation(tier="quick", timeout=300, shards=[{"base": b} for b in range(len(VBASES))],
+            samples=[{"fb": 0, "ib": 0}, {"fb": 1, "ib": 0}],
+            selectors=["fb: wrappers of the object's field type", "ib: wrappers of the interface's field type", "shard: base type pair (same scalar, object/interface, object/union)"],
+            bounds="8 x 8 wrappings x 3 base pairs", 
+            note="'for any valid SDL the engine builds': an object field type that IS a valid implementation of the interface field type (spec IsValidImplementationFieldType) must build")
+def c11_valid_interface_impl(fb: int, ib: int) -> bool:
+    """
+    post: _
+    """
+    fbase, ibase = VBASES[shard()["base"]]
+    fb = pick(fb, 8); ib = pick(ib, 8)
+    if (fb & 4 and not fb & 2) or (ib & 4 and not ib & 2):
+        return True
+    ft, it = wrap(fbase, fb), wrap(ibase, ib)
+    if not valid_impl_field_type(parse(ft), parse(it)):
+        return True          # invalid: C12's subject
+    with NoTracing():
+        VCOUNT[0] += 1
+        try:
+            asyncio.run(create_engine(VPRE + "interface I { x: %s }\ntype T implements I { x: %s }" % (it, ft), schema_name="c11v_%d" % VCOUNT[0], json_loader=env.identity))
+            ok = True
+        except Exception as e:
+            observe(it, ft, repr(e)[:300])
+            ok = False
+    return verdict(ok)
